@@ -365,7 +365,7 @@ def correspond(ctx, drivers):
     tab, info = table(drivers)
     ctx.extra['gen_table'] = {c: dict(fs) for c, fs in info['classes']}
     ctx.extra['kv_add_target'] = info['addTarget']
-    cases = gen_cases(ctx, ctx.budget(700, 6000))
+    cases = gen_cases(ctx, ctx.budget(700, 4500))
     ctx._cases = cases
     reqs, meta = [], []
     for case in cases:
@@ -487,7 +487,7 @@ def correspond(ctx, drivers):
 
 def search(ctx):
     tab, _ = table(None)
-    cases = getattr(ctx, '_cases', None) or gen_cases(ctx, ctx.budget(700, 6000))
+    cases = getattr(ctx, '_cases', None) or gen_cases(ctx, ctx.budget(700, 4500))
     # neighbours of whatever disagreed
     for d in ctx.disagreements[:20]:
         c = d['case']
